@@ -604,6 +604,45 @@ def check_short_lived_individuals(h: Harness, tmp: str):
                 break
 
 
+def check_many_objectives(h: Harness, tmp: str):
+    """with the default columns a problem of K objectives gets the columns Fitness0 .. Fitness{K-1}, and column FitnessJ shows component J
+    of the individual of that row -- also for two- and three-digit J"""
+    import csv as csvmod
+    rng = h.rng
+    for k in ((11, 12, 26) if not h.thorough else (10, 11, 12, 20, 21, 26, 101, 112)):
+        minimize = [rng.random() < 0.5 for _ in range(k)]
+        problem = MultiObjectiveProblem(list(minimize), lambda p: [float(c) for c in p.fit])
+        path = os.path.join(tmp, f"many{k}.csv")
+        recorder = CSVSearchRecorder(path, problem, only_record_best_individuals=False)
+        tracker = MultiObjectiveProgressTracker(problem, recorders=[recorder])
+        inds = [make_ind(i, 4 * i, [1000 * i + 7 * j + 1 for j in range(k)]) for i in range(4)]
+        desc = f"CSV log with the default columns for a problem of {k} objectives"
+        try:
+            tracker.evaluate(inds)
+            recorder.csv_file.flush()
+        except Exception as e:  # noqa: BLE001
+            h.fail("CSVSearchRecorder.register", "raises", f"{desc}: {type(e).__name__}: {e}", [k])
+            continue
+        finally:
+            recorder.csv_file.close()
+        with open(path, newline="") as f:
+            rows = list(csvmod.reader(f))
+        h.count("many-objectives")
+        h.seen(f"many-objectives:{k}", nontrivial=True)
+        missing = [f"Fitness{j}" for j in range(k) if f"Fitness{j}" not in (rows[0] if rows else [])]
+        if len(rows) != len(inds) + 1 or missing:
+            h.fail("CSVSearchRecorder.register", "column-not-faithful", f"{desc}: {len(rows) - 1} rows for {len(inds)} individuals, missing columns {missing[:5]}", [k])
+            continue
+        for i, r in enumerate(rows[1:]):
+            got = [float(r[rows[0].index(f"Fitness{j}")]) for j in range(k)]
+            want = [float(c) for c in inds[i].phenotype.fit]
+            if got != want:
+                j = next(j for j in range(k) if got[j] != want[j])
+                h.fail("CSVSearchRecorder.register", "column-not-faithful",
+                       f"{desc}: row {i}, column Fitness{j} shows {got[j]}, component {j} of that individual is {want[j]}", [k, i, j])
+                break
+
+
 def check_extreme_first(h: Harness, tmp: str):
     """the first registered individual is a new best whatever its fitness is -- also the worst value there is (inf when
     minimising, -inf when maximising) or NaN: its row opens the best-only log.  For the infinities the later flags are
@@ -702,6 +741,7 @@ def run(h: Harness):
         check_second_search_same_log(h, tmp)
         check_reregistered_individuals(h, tmp)
         check_short_lived_individuals(h, tmp)
+        check_many_objectives(h, tmp)
         n = 0
         for case in CORPUS:
             run_case(h, case, tmp, n)
